@@ -143,7 +143,7 @@ def run(case, bct, REC):
     W = G.weigh(A, 'signed', case['ws'], symmetric=True)
     Wd = W.copy()
     np.fill_diagonal(Wd, rs.randint(0, 3, size=n).astype(float))
-    variants += [('signed_weights', W), ('nonzero_diagonal', Wd)]
+    variants += [('signed_weights', W), ('nonzero_diagonal', Wd), ('tiny_weights', G.weigh(A, 'logu', case['ws'], symmetric=True) * 1e-6)]
     if case.get('lite'):
         variants = variants[:1]
     lab, m = O.components(A)
